@@ -85,6 +85,17 @@ def rule_mirror(ctx, cfg, r):
             for a, s in x.atoms:
                 if a[0] == "bin" and a[1] == "Lt" and a[2] == dst and is_const(a[3]):
                     lt = (s.single(), const_val(a[3]))
+            # the chunk copied into the ring must end at or before the ring's end: length = min(LZ_DICT_SIZE - dst, ..)
+            hi1 = first[0][1]
+            nterm = [q for q in sum_parts(hi1) if q[0] == "pure" and q[1] == "min"]
+            ring_ok = bool(nterm) and any(q[0] == "bin" and q[1] == "Sub" and is_const(q[2]) and const_val(q[2]) == SIZE and q[3] == dst for q in nterm[0][2]) and \
+                [q for q in sum_parts(hi1) if q not in nterm] == [dst]
+            if ring_ok:
+                r.ok(f.name, "ring-bound", "bulk copy into dict[dst .. dst + min(LZ_DICT_SIZE - dst, n)]: a refill that reaches the ring's end is split there")
+            else:
+                r.fail(f.name, "ring-bound", "compress_fast copies input into dict[%s .. %s]: the length is not limited to LZ_DICT_SIZE - dst, so a refill that "
+                       "straddles the end of the ring spills into the mirror area / past the buffer instead of wrapping to offset 0"
+                       % (tstr(dst)[:40], tstr(hi1)[:80]), cps[0][3])
             if lt is None or lt[1] != GUARD:
                 r.fail(f.name, "mirror-bulk", "bulk dictionary copy at %s is not followed by the mirror test dst_pos < %d" % (tstr(dst)[:40], GUARD), cps[0][3])
                 continue
